@@ -782,7 +782,7 @@ impl<'a> Trace<'a> {
             && !self.sql_broken
             && depth <= SQL_DEPTH - 5
             && visited_by_wallet_walk
-            && self.rng.gen_bool(if depth <= 6 { 0.6 } else { 0.25 });
+            && (self.state.status() == MigrationStatus::Complete || self.rng.gen_bool(if depth <= 6 { 0.6 } else { 0.25 }));
         let mut expected = self.state.clone();
         expected.truncate_to_height(bh(achieved));
         if use_wallet {
@@ -957,7 +957,7 @@ impl<'a> Trace<'a> {
                     self.persist_and_verify("report_broadcast_failure");
                 }
             }
-            80..=83 => {
+            80..=85 => {
                 // a consumer that also polls for inclusion records it itself
                 let scanned = self.store.world.scanned;
                 let cands: Vec<(u32, u32)> = self
@@ -977,7 +977,7 @@ impl<'a> Trace<'a> {
                     })
                     .collect();
                 if let Some((id, h)) = cands.choose(&mut self.rng).copied() {
-                    if self.rng.gen_bool(0.5) {
+                    if self.rng.gen_bool(0.9) {
                         let txid = self.state.transactions().iter().find(|t| u32::from(t.id()) == id).unwrap().txid();
                         self.check_update_transaction(id, MigrationTxState::Mined { txid, height: bh(h) });
                     }
@@ -987,7 +987,7 @@ impl<'a> Trace<'a> {
                     self.mine(1);
                 }
             }
-            84..=91 => {
+            86..=91 => {
                 let cands: Vec<u32> = self
                     .state
                     .transactions()
